@@ -27,6 +27,8 @@ def parseProgress : String → Option Progress
   | "N" => some .nothing | "H" => some .headerOnly | "B" => some .partialBody
   | "F" => some .headerOnly        -- a flush only: the implicit 200 header is committed
   | "S" | "R" => some .partialBody -- WriteString / ReadFrom without an explicit header (status 200)
+  | "I" => some .nothing           -- a 1xx informational header only: no final header has been sent
+  | "C" => some .nothing           -- response headers set (Content-Length), nothing written
   | _ => none
 
 /-- the status the handler committed before it panicked -/
